@@ -35,6 +35,11 @@ import microjs.regex.vm as _rvm     # noqa: E402
 from harness import wire            # noqa: E402
 
 
+# The wall-clock watchdog is only a last resort behind the deterministic step cap; on a loaded machine it is
+# stretched so that scheduling delays are never mistaken for a hang (VERIF_WALL_SCALE, default 6).
+WALL_SCALE = float(os.environ.get("VERIF_WALL_SCALE", "6"))
+
+
 class HarnessHang(BaseException):
     """Raised by the step hook / watchdog; BaseException so no `except Exception` swallows it."""
 
@@ -158,6 +163,7 @@ class Api:
         return ctx
 
     def run(self, fn, wall=20.0, cap=5_000_000, tick=0.0, deadline=None):
+        wall = wall * WALL_SCALE
         """Run fn() under the step cap and a wall-clock watchdog; classify the outcome."""
         STEPS.reset(cap=cap, tick=tick, deadline=deadline)
         if tick:
